@@ -551,10 +551,18 @@ def install():
         try:
             res, scale = _interp_resid(run, models)
             cond = _cond_estimate(models)
-            c = min(cond, 1e15)
-            tol = [float(200.0 * EPS * max(models.n, models.npt) * c * s) for s in scale]
+            # rounding errors made earlier persist in the models: the tolerance follows the largest
+            # conditioning and the largest recorded magnitude seen so far in this run
+            run.cond_max = max(getattr(run, "cond_max", 1.0), cond)
+            sm = getattr(run, "scale_max", None)
+            if sm is None or len(sm) != len(scale):
+                sm = list(scale)
+            sm = [max(a, b) for a, b in zip(sm, scale)]
+            run.scale_max = sm
+            c = min(run.cond_max, 1e15)
+            tol = [float(500.0 * EPS * max(models.n, models.npt) * c * s) for s in sm]
             run.emit("Interp", what=what, k=k + 1, resid=KL(res), tol=KL(tol), cond=K(cond),
-                     illskip=bool(cond > 1e13))
+                     illskip=bool(run.cond_max > 1e13))
         except Exception as ex:  # pragma: no cover
             run.emit("RecErr", what="Interp:" + type(ex).__name__)
 
